@@ -118,6 +118,36 @@ func runC07(rc *RunCtx) {
 			sc.Then, sc2 = n, n
 		}
 	}
+	// sometimes the call under test is not the first on its client: an earlier call was abandoned (the device stayed
+	// silent until the read timeout, or the caller's context ended) and nothing of it is left on the line
+	if sc2 == nil && !rc.Scen.Has("cutmode") && !sc.LongSilence && rc.Scen.Chance(1, 8) {
+		if pre, ok := genC07Kind(rc, int(sc.Kind)); ok {
+			pre.ReadTimeout, pre.PortTimeout, pre.TOStyle, pre.Flusher, pre.WriteTimeout, pre.Hooks = sc.ReadTimeout, sc.PortTimeout, sc.TOStyle, sc.Flusher, sc.WriteTimeout, sc.Hooks
+			pre.Fault = FStall
+			pre.Full = pre.Reply
+			pre.Reply = pre.Reply[:rc.Scen.Choose(2)*rc.Scen.Choose(len(pre.Reply))] // nothing at all, or a strict prefix
+			pre.Chunks = nil
+			if len(pre.Reply) > 0 {
+				pre.Chunks = []Chunk{{N: len(pre.Reply)}}
+			}
+			if rc.Scen.Choose(2) == 1 {
+				pre.Fault = FCancelAt
+				pre.CancelAt = time.Duration(1+rc.Scen.Choose(3000)) * time.Microsecond
+			}
+			pre.Then = sc
+			out := RunC1(rc, pre)
+			rc.Desc = sc.describe()
+			rc.Desc["after_an_abandoned_call"] = pre.Fault.String()
+			rc.Nontrivial = true
+			rc.Fault("earlier_call_abandoned:"+pre.Fault.String(), out.Returned && out.Err != nil)
+			if out.Panic != nil || !out.Returned || len(out.Next) != 1 {
+				rc.Violate("hang", fmt.Sprintf("client=%s|after_abandoned_call", sc.Kind), "the call after an abandoned call did not take place: first returned=%v, hang=%v, panic=%v", out.Returned, out.Hang, out.Panic != nil)
+				return
+			}
+			checkC07(rc, sc, out.Next[0])
+			return
+		}
+	}
 	out := RunC1(rc, sc)
 	rc.Desc = sc.describe()
 	rc.Nontrivial = len(sc.Chunks) >= 2
